@@ -25,7 +25,7 @@ BudSim   == [way |-> 4, way2 |-> 2, rand |-> 3, hs |-> 4, badhs |-> 2, msg |-> 8
 
 Reset == [k |-> "Reset", retries |-> RETRIES, cap |-> CAP, sess_ttl |-> TTL]
 Init == /\ h = HInit(RETRIES, CAP, TTL) /\ env = EInit /\ bud = BUD
-        /\ hist = <<Reset>> /\ last = [in |-> Reset, rin |-> [k |-> "Nop"], hadSess |-> FALSE, hadPend |-> FALSE, pendRids |-> {}, expPend |-> FALSE, lateInt |-> FALSE, hadOld |-> FALSE, wayHsForeign |-> FALSE, wayHs |-> FALSE]
+        /\ hist = <<Reset>> /\ last = [in |-> Reset, rin |-> [k |-> "Nop"], hadSess |-> FALSE, hadPend |-> FALSE, pendRids |-> {}, expPend |-> FALSE, lateInt |-> FALSE, hadOld |-> FALSE, wayHsForeign |-> FALSE, wr |-> "none", prevwr |-> "none", wayHs |-> FALSE]
         /\ subm = {} /\ outc = [r \in RIDS |-> 0] /\ proved = {} /\ xreq = {} /\ rot = {}
 
 Parties == PEERS \cup (IF ATTACKER THEN {"A"} ELSE {})
@@ -71,7 +71,8 @@ ZeroMsgs == IF ATTACKER /\ "zerokey" \in MSGSEL
             THEN {[k |-> "PeerMessage", party |-> "A", claim |-> h.sessq[i].addr.id, from |-> h.sessq[i].addr.sock, key |-> "zero",
                    msg |-> [t |-> "req", xid |-> "x1", body |-> "ping"]] : i \in 1..Len(h.sessq)}
             ELSE {}
-Replays == UNION {{[k |-> "Replay", idx |-> i, from |-> f] : f \in {env.inj[i].from} \cup (IF ATTACKER THEN {"aA"} ELSE {})} : i \in 1..Len(env.inj)}
+Replays == UNION {{[k |-> "Replay", idx |-> i, from |-> f] : f \in {env.inj[i].from} \cup (IF ATTACKER THEN {"aA"} ELSE {})
+                                                                   \cup (IF DEPTH > 0 \/ "sib" \in MSGSEL THEN {Sib(env.inj[i].from)} ELSE {})} : i \in 1..Len(env.inj)}
 Forgets == {[k |-> "PeerForget", party |-> p] : p \in {env.sess[i].party : i \in 1..Len(env.sess)}}
 
 Moves ==
@@ -117,6 +118,10 @@ Do(kind, in) ==
                                     /\ (\E i \in 1..Len(h.active) : h.active[i].addr = Addr(rin.src, rin.from) /\ ~h.active[i].int),
                         hadOld |-> rin.k = "msg" /\ SessIdx(h, Addr(rin.src, rin.from)) # 0 /\ Sess(h, Addr(rin.src, rin.from)).old # "none",
                         wayHsForeign |-> rin.k = "way" /\ \E i \in 1..Len(h.active) : h.active[i].n = rin.echo /\ h.active[i].hs /\ h.active[i].addr.sock # rin.from,
+                        \* a WHOAREYOU for a request that went out as a random packet although a session with the peer exists by now (both sides dialled)
+                        wr |-> IF rin.k = "way" /\ (\E i \in 1..Len(h.active) : h.active[i].n = rin.echo /\ h.active[i].kind = "rand" /\ h.active[i].addr.sock = rin.from /\ HasSess(h, h.active[i].addr))
+                               THEN rin.echo ELSE "none",
+                        prevwr |-> last.wr,
                         wayHs |-> rin.k = "way" /\ \E i \in 1..Len(h.active) : h.active[i].n = rin.echo /\ h.active[i].hs /\ h.active[i].kind = "msg" /\ h.active[i].addr.sock = rin.from]
         /\ hist' = Append(hist, in)
         /\ subm' = IF in.k = "AppRequest" THEN subm \cup {in.rid} ELSE subm
@@ -218,7 +223,7 @@ GoalForeignEnrAnswer == ~(last.in.k = "PeerMessage" /\ last.rin.k = "msg" /\ las
 \* request to the peer is in flight: the peer is reported established, the other request keeps its exemption
 GoalLateEnrAnswer == ~(last.lateInt /\ \E i \in 1..Len(h.ev) : h.ev[i].e = "Established")
 \* the attacker answers a challenge meant for a known node with bytes that are no signature at all
-GoalJunkSigHs == ~(last.in.k = "PeerHandshake" /\ last.in.party = "A" /\ last.in.claim # "A" /\ last.in.sig \in {"zero64", "junk0", "junk63"}
+GoalJunkSigHs == ~(last.in.k = "PeerHandshake" /\ last.in.party = "A" /\ last.in.claim # "A" /\ last.in.sig \in {"zero64", "junk0", "junk63", "relay"}
                    /\ last.rin.k = "hs" /\ HasChal(h, Addr(last.rin.src, last.rin.from)))
 \* a correctly signed handshake whose record advertises another socket than it came from (the session is established, the record
 \* reported unverifiable) is presented a second time: its challenge was consumed by the first
@@ -229,6 +234,11 @@ GoalReplayUnverifiableHs == ~(last.in.k = "Replay" /\ last.rin.k = "hs" /\ Len(h
 GoalZeroKeyAfterRekey == ~(last.in.k = "PeerMessage" /\ "key" \in DOMAIN last.in /\ last.in.key = "zero" /\ last.hadOld)
 \* a WHOAREYOU echoing the nonce of a handshake the node has sent, but from another socket than that handshake went to: ignored
 GoalForeignWayOnHs == ~(last.wayHsForeign)
+\* the WHOAREYOU for a random-packet request arrives twice in a row while a session with the peer already exists
+GoalWayTwiceWithSession == ~(last.rin.k = "way" /\ last.prevwr # "none" /\ last.prevwr = last.rin.echo)
+\* a genuine message of a peer presented again from the other port of its address
+GoalReplayMsgFromSibling == ~(last.in.k = "Replay" /\ last.rin.k = "msg" /\ last.rin.key # "none" /\ last.rin.msg.t = "req" /\ last.in.idx \in 1..Len(env.inj) /\ last.in.from = Sib(env.inj[last.in.idx].from)
+                              /\ Len(h.sessq) >= 1)
 GoalBadSigKeepsChallenge == ~(last.rin.k = "hs" /\ last.rin.signer = "bad" /\ HasChal(h, Addr(last.rin.src, last.rin.from)))
 GoalReplayedHs  == ~(last.in.k = "Replay" /\ last.rin.k = "hs" /\ Len(h.sessq) >= 1)
 =============================================================================
